@@ -174,7 +174,7 @@ func checkReleased(w *World, what string) {
 func init() {
 	register(&CheckDef{ID: "C11", Level: "fault_enumeration", Engine: "A", Draw: drawC11,
 		Rule:     "random part: 1-8 connections of random kinds (C16 kinds) in parallel, aborted by FIN or RST at random byte offsets or stalled, handshake timeout in {off,1s,10s} and idle timeout in {2s,30s,180s} through the real flags; oracle: once every client has gone and simulated time has advanced (<= 217 s) every accepted connection has been closed by the proxy and the goroutine census (stable at quiescence) shows no serveConn / http2 serverConn / net/http conn / persistConn goroutine. Non-trivial: at least one fault fired. Distinct: distinct controller action-label sequences.",
-		EnumRule: "enumerated part: a client abort (FIN and RST) at EVERY byte offset of the client->proxy stream of a fixed HTTP/1.1 session, a fixed HTTP/2 session (two requests each) and a fixed HTTP/1.1 session that upgrades the protocol (101 through the reverse proxy, then two messages through the tunnel); a silent stall at every byte offset of the handshake for handshake timeouts 1s and 10s (the proxy must hang up at the timeout, not earlier); a silent stall at EVERY byte offset of the three sessions that lasts 12 s or 75 s before the client goes away by FIN or RST (everything must be released afterwards); an idle connection after served requests for idle timeouts 2s and 30s on both protocols, the last stream ending normally, by a client RST_STREAM, by a server RST_STREAM, with a HEADERS frame refused before a stream exists, or after two streams that were open at the same time (the proxy must close it at the timeout). Quick tier: stride sample; thorough tier: every index.",
+		EnumRule: "enumerated part: a client abort (FIN and RST) at EVERY byte offset of the client->proxy stream of a fixed HTTP/1.1 session, a fixed HTTP/2 session (two requests each) and a fixed HTTP/1.1 session that upgrades the protocol (101 through the reverse proxy, then two messages through the tunnel); a silent stall at every byte offset of the handshake for handshake timeouts 1s and 10s (the proxy must hang up at the timeout, not earlier), and a handshake whose first flight trickles in one byte every quarter of the timeout (cut at the timeout all the same); a silent stall at EVERY byte offset of the three sessions that lasts 12 s or 75 s before the client goes away by FIN or RST (everything must be released afterwards); an idle connection after served requests for idle timeouts 2s and 30s on both protocols, the last stream ending normally, by a client RST_STREAM, by a server RST_STREAM, with a HEADERS frame refused before a stream exists, or after two streams that were open at the same time (the proxy must close it at the timeout). Quick tier: stride sample; thorough tier: every index.",
 		Enum:     &EnumDef{Params: faultParams, Count: c11Count, Case: c11Case}})
 }
 
@@ -202,7 +202,7 @@ func faultParams(run func(c *Case) *World) map[string]int {
 }
 
 type faultCase struct {
-	Kind    string // abort, stall_hs, stall_abort, idle
+	Kind    string // abort, stall_hs, stall_abort, idle, trickle_hs
 	Session string
 	How     string
 	Off     int
@@ -232,13 +232,19 @@ func c11Decode(p map[string]int, i int) faultCase {
 		}
 		i -= n
 	}
+	if i >= 12 {
+		// a handshake that never ends but never falls silent either: after Off bytes the client's
+		// first flight arrives one byte every quarter of the handshake timeout
+		i -= 12
+		return faultCase{Kind: "trickle_hs", Session: []string{"h1", "h2"}[i%2], Timeout: []int{1, 10}[i/2%2], Off: []int{1, 7}[i/4%2]}
+	}
 	s := []string{"h1", "h2", "h2", "h2", "h2", "h2"}[i/2%6]
 	how := []string{"", "", "client_rst", "server_rst", "refused", "overlap"}[i/2%6]
 	return faultCase{Kind: "idle", Session: s, How: how, Timeout: []int{2, 30}[i%2]}
 }
 
 func c11Count(p map[string]int) int {
-	return 4*(p["h1_total"]+1) + 4*(p["h2_total"]+1) + 4*(p["h1up_total"]+1) + 2*p["h1_hs"] + 2*p["h2_hs"] + 12
+	return 4*(p["h1_total"]+1) + 4*(p["h2_total"]+1) + 4*(p["h1up_total"]+1) + 2*p["h1_hs"] + 2*p["h2_hs"] + 12 + 8
 }
 
 func c11Case(p map[string]int, i int) *Case {
@@ -264,6 +270,45 @@ func c11Case(p map[string]int, i int) *Case {
 				w.Violate("stalled_handshake_not_cut", "stalled_handshake_not_cut", "%s: handshake stalled after %d bytes was not cut by the proxy (server side closed=%v, client handshake err=%q, stuck=%v)", c.Summary, fc.Off, closed, cl.HandshakeErr, w.Stuck)
 			} else if took < T || took > T+time.Second {
 				w.Violate("handshake_timeout_time", "handshake_timeout_time", "%s: stalled handshake was cut after %v, configured timeout %v", c.Summary, took, T)
+			}
+			checkReleased(w, c.Summary)
+		}
+		c.Nontrivial = func(w *World, c *Case) bool { return w.Clients[0].stalled }
+	case "trickle_hs":
+		cp.StallOn, cp.StallAt = true, fc.Off
+		cp.Steps = []Step{{Kind: "connect_bg"}, {Kind: "hswait"}, {Kind: "readeof"}, {Kind: "close"}}
+		plan.Args = []string{"-timeout-tls-handshake", fmt.Sprintf("%ds", fc.Timeout)}
+		T := time.Duration(fc.Timeout) * time.Second
+		plan.Setup = func(w *World) {
+			quit := make(chan struct{})
+			old := w.OnTeardown
+			w.OnTeardown = func() {
+				close(quit)
+				if old != nil {
+					old()
+				}
+			}
+			go func() {
+				for {
+					select {
+					case <-quit:
+						return
+					case <-time.After(T / 4):
+					}
+					w.mu.Lock()
+					cp.StallAt++ // one more byte of the flight may be delivered
+					w.mu.Unlock()
+					w.Net.fired("client_trickle_byte")
+				}
+			}()
+		}
+		c.Oracle = func(w *World, c *Case) {
+			cl := w.Clients[0]
+			closed, took := serverClosedAfter(w, cl)
+			if !closed || w.Stuck {
+				w.Violate("stalled_handshake_not_cut", "stalled_handshake_not_cut:trickle", "%s: a handshake whose first flight arrives one byte every %v was not cut by the proxy (server side closed=%v, client handshake err=%q, stuck=%v)", c.Summary, T/4, closed, cl.HandshakeErr, w.Stuck)
+			} else if took < T || took > T+time.Second {
+				w.Violate("handshake_timeout_time", "handshake_timeout_time", "%s: trickling handshake was cut after %v, configured timeout %v", c.Summary, took, T)
 			}
 			checkReleased(w, c.Summary)
 		}
